@@ -7,6 +7,8 @@ encodeSites    every `encode(<data set>, F1, F2, F3)` call in class Association 
                V was last assigned `<context>.transfer_syntax[0]` - the accepted presentation context's transfer
                syntax, never the data set's own label
 subStoreById   `Association._c_store_scp` looks its context up with `context_id=req._context_id`
+subStoreRejectsUnaccepted   ... and before that lookup it tests `req._context_id not in self._accepted_cx`, aborts
+               (`self.abort()`) and returns without sending anything
 idsRenumbered  `AE.associate` assigns `context.context_id = 2 * ii + 1` to every requested context unconditionally
 copiedPerItem  ... after copying each requested context on its own (`[deepcopy(cx) for cx in contexts]`)
 allValidated   ... and validates the list it will use (`self._validate_requested_contexts(contexts)`) unconditionally,
@@ -55,6 +57,17 @@ def sub_store_by_id():
     return False
 
 
+def sub_store_rejects_unaccepted():
+    fn = next(n for n in _cls("pynetdicom.association", "Association").body if isinstance(n, ast.FunctionDef) and n.name == "_c_store_scp")
+    for st in fn.body:
+        if any(isinstance(n, ast.Call) and getattr(n.func, "attr", None) in ("_get_valid_context", "send_msg", "trigger") for n in ast.walk(st)):
+            return False  # the lookup, a response or the handler comes first
+        if isinstance(st, ast.If) and ast.unparse(st.test) == "req._context_id not in self._accepted_cx":
+            body = [ast.unparse(b) for b in st.body if not ast.unparse(b).startswith("LOGGER.")]
+            return body == ["self.abort()", "return"] and not st.orelse
+    return False
+
+
 def associate_facts():
     fn = next(n for n in _cls("pynetdicom.ae", "ApplicationEntity").body if isinstance(n, ast.FunctionDef) and n.name == "associate")
     top = fn.body
@@ -77,6 +90,7 @@ def associate_facts():
 def generate():
     sites = encode_sites()
     by_id = sub_store_by_id()
+    rejects = sub_store_rejects_unaccepted()
     renumbered, copied, validated = associate_facts()
     b = lambda x: "true" if x else "false"
     rows = [f"({lean_str(n)}, {b(ok)})" for n, ok in sites]
@@ -87,9 +101,10 @@ def generate():
         "/-- (method, the encode() flags are those of the accepted context's transfer syntax) -/\n"
         "def encodeSites : List (String × Bool) := " + lean_list(rows, 3) + "\n"
         f"def subStoreById : Bool := {b(by_id)}\n"
+        f"def subStoreRejectsUnaccepted : Bool := {b(rejects)}\n"
         f"def idsRenumbered : Bool := {b(renumbered)}\n"
         f"def copiedPerItem : Bool := {b(copied)}\n"
         f"def allValidated : Bool := {b(validated)}\n"
         "end PynetVerif.Gen.Glue\n",
     )
-    return sites, by_id, renumbered, copied, validated
+    return sites, by_id, renumbered, copied, validated, rejects
